@@ -915,6 +915,21 @@ class Mailbox:
                     "mbox: '%s', mailbox deleted exiting management task",
                     self.name,
                 )
+                # The folder is gone (an MH user's `rmf`.) Nobody is going to
+                # tell the commands that wait for us - the one we took off
+                # the queue, those still in it, those that come later - that
+                # they may go ahead: without this they were answered by the
+                # command timeout, two minutes later, each of them, also
+                # after the mailbox had been created again.
+                #
+                self.deleted = True
+                if imap_cmd is not None and not imap_cmd.ready.is_set():
+                    imap_cmd.ready.set()
+                while not self.task_queue.empty():
+                    waiting = self.task_queue.get_nowait()
+                    waiting.ready.set()
+                if self.server.active_mailboxes.get(self.name) is self:
+                    del self.server.active_mailboxes[self.name]
                 return
             except RuntimeError as e:
                 if "Event loop is closed" in str(e):
